@@ -88,7 +88,7 @@ def gen_seq_case(r, safe_copies):
     nslots = 3
     st = [None] * nslots          # None or dict(size, B, nbuf, tcap, moved)
     toks = []
-    nops = r.randint(3, 14)
+    nops = r.randint(3, 11)
     tag = [100]
 
     def emit(*a):
@@ -97,7 +97,7 @@ def gen_seq_case(r, safe_copies):
     def boundary_delta(a):
         B = a['B']
         to_next = B - a['size'] % B
-        return max(0, r.choice([to_next - 1, to_next, to_next + 1, to_next + B, 2 * B + 1, 0, 1, r.randint(0, 3 * B + 2)]))
+        return max(0, r.choice([to_next - 1, to_next, to_next + 1, to_next + B, 2 * B + 1, 0, 1, r.randint(0, 2 * B + 2)]))
 
     def do_grow(s, d):
         a = st[s]
@@ -123,19 +123,19 @@ def gen_seq_case(r, safe_copies):
         k = r.choice(choices) if choices else 'N'
         if k == 'N':
             s = r.choice(empty)
-            m = r.choice([0, 1, 2, 2, 3, 4, 4, 5, 8])
+            m = r.choice([0, 1, 1, 2, 2, 2, 3, 4, 4, 5])
             B = 1
             while B < m:
                 B *= 2
             if m == 0:
                 B = 2
-            init = r.choice([0, 0, 1, B - 1, B, B + 1, 2 * B, 3 * B - 1, 3 * B + 1])
+            init = r.choice([0, 0, 0, 1, B - 1, B, B + 1, 2 * B, 3 * B - 1])
             emit('N', s, m, init)
             nb = init // B + 1
             st[s] = {'size': init, 'B': B, 'nbuf': nb, 'tcap': pow2_table(nb), 'moved': False}
         elif k == 'G':
             s = r.choice(usable)
-            if st[s]['size'] < 70:
+            if st[s]['size'] < 22:
                 do_grow(s, boundary_delta(st[s]))
         elif k == 'W':
             s = r.choice(usable)
@@ -150,7 +150,7 @@ def gen_seq_case(r, safe_copies):
             if r.random() < safe_copies and a['nbuf'] < a['tcap'] and a['tcap'] <= 8:
                 # grow until the table is full so that the copy is in the defined domain
                 need = (a['tcap'] - 1) * a['B'] + r.randrange(a['B']) - a['size']
-                if a['size'] + need < 80:
+                if a['size'] + need < 40:
                     do_grow(s, need)
             if k == 'C':
                 d = r.choice(empty)
@@ -178,7 +178,7 @@ def gen_seq_case(r, safe_copies):
             emit('D', s)
             st[s] = None
     for i in range(nslots):
-        if st[i] is not None and not st[i]['moved'] and r.random() < 0.7:
+        if st[i] is not None and not st[i]['moved'] and r.random() < 0.4:
             emit('R', i)
     return 'seq %d %s' % (nslots, ' '.join(toks))
 
@@ -188,8 +188,8 @@ def run(ctx):
     exe = dv.build_harness('h_arena', ['h_arena.cpp'], need_lib=False, extra_flags=['-fsanitize=address'])
     ctx.phase('build')
     r = ctx.rng
-    nseq = 500 if ctx.quick else 6000
-    nmt = 40 if ctx.quick else 400
+    nseq = 300 if ctx.quick else 5000
+    nmt = 24 if ctx.quick else 300
     fixed = [WITNESS,
              'seq 2 N 0 2 0 C 1 0',                               # a fresh arena already has 1 buffer in a table of 2
              'seq 2 N 0 2 0 G 0 2 C 1 0 G 1 1 R 1 R 0',            # 2 buffers of 2: defined
@@ -203,7 +203,7 @@ def run(ctx):
         m = r.choice([1, 2, 2, 4, 8, 16, 64])
         init = r.choice([0, 0, 1, m, 3 * m + 1])
         nth = r.choice([2, 3, 4, 8])
-        calls = r.choice([5, 20, 40])
+        calls = r.choice([3, 10, 25])
         maxd = r.choice([1, 2, m, 2 * m + 1, 3])
         mt_cases.append('mt %d %d %d %d %d %d' % (m, init, nth, calls, maxd, r.randrange(1 << 30)))
     outs = pf_common.run_harness(exe, seq_cases + mt_cases, timeout=900)
@@ -220,10 +220,10 @@ def run(ctx):
         mt_ranges.append(ranges)
     imports = 'From DV Require Import Base.Corr Model.ArenaModel Model.C37Check.'
     # Coq spends its time reading the numerals, not evaluating: shard and read the shards in parallel
-    nsh = 8 if ctx.quick else 24
+    nsh = 3 if ctx.quick else 24
     jobs = [('cases_seq%d' % k, 'judge_seq', sh) for k, sh in enumerate(pf_common.shard(seq_terms, nsh))]
-    jobs += [('cases_mt%d' % k, 'judge_mt', sh) for k, sh in enumerate(pf_common.shard(mt_terms, 4 if ctx.quick else 12))]
-    with concurrent.futures.ThreadPoolExecutor(max_workers=8) as ex:
+    jobs += [('cases_mt%d' % k, 'judge_mt', sh) for k, sh in enumerate(pf_common.shard(mt_terms, 1 if ctx.quick else 12))]
+    with concurrent.futures.ThreadPoolExecutor(max_workers=4) as ex:
         results = list(ex.map(lambda j: pf_common.coq_judge(ctx, j[0], imports, [(j[1], j[2])]), jobs))
     verd_seq, verd_mt = [], []
     ok = all(x is not None for x in results)
